@@ -5,5 +5,11 @@ CLAIMED = {
   "note": "trusts numpy arithmetic and the json module; reference model is 40 lines and self-checked at start-up; only strictly ascending/descending inputs are generated (the property's own quantifier)",
   "technique": "runtime monitoring: operation-history replay against an executable reference model + icontract invariant on the live class",
  },
+ "C03": {
+  "text": "Held on every observed execution: intended circuit trees (the generator is the oracle) are built through the public object API, serialised by the library at a sample of 1..17 decimals, parsed back and compared in structural normal form at the printed precision; text fixpoint, copy/deepcopy serialisation and impedance after round-trip are checked; each tree is re-spelled 6-20 ways by a grammar-directed printer (implicit outer series, omitted defaults, % limits, f/F, short/zero/open/inf, bare sub-circuit lists, white space, redundant brackets, header variants) and every spelling must parse to the same normal form. Exhaustive topologies with <=4 (5) leaves x all single-feature spelling toggles, random trees to 12 leaves with nested containers and 8 limit-state classes incl. limits outside the class defaults. Three by-design limitations are open known findings (unbalanced-brace labels, leading-punctuation labels, degenerate single-child/empty connections).",
+  "design_ref": "DESIGN.md 5/C03",
+  "note": "trusts CPython float<->decimal conversion; exact-text fixpoint demanded for circuits already in parser normal form (else stability after one round) and not at decimals=15 (16 significant digits do not round-trip in IEEE-754); limits that collapse at the printed precision are skipped (counted)",
+  "technique": "runtime monitoring: generator-as-oracle differential check of parse/serialise over generated circuit trees and spellings",
+ },
 }
 NOT_APPLICABLE = {}
